@@ -57,7 +57,11 @@ Definition ok_self (r : res) : bool := match r with Ok _ | Err EACCES | Err EPER
 Definition ok_other (r : res) : bool := match r with Err EINVAL => false | _ => true end.
 Definition is_ok (r : res) : bool := match r with Ok _ => true | _ => false end.
 Definition ok_class (o : oclass) (r : res) : bool :=
-  match o with Strict | DirSurvives => ok_self r | MayVanish => ok_other r | MayVanishOrInval => true end.
+  match o with
+  | Strict | DirSurvives => ok_self r
+  | MayEnoent => match r with Err ENOENT => true | _ => ok_self r end
+  | MayVanish => ok_other r | MayVanishOrInval => true
+  end.
 (* [gf]: which pids are gone at the moment of the access (the base answers of listings depend on it) *)
 Definition base_ok (opt : label -> oclass) (w : world) : Prop :=
   forall gf l cur,
@@ -79,8 +83,9 @@ Definition opt_race (l : label) : oclass :=
   | FFdE => MayVanishOrInval
   | FFdinfoE | FTaskStatE | FRollup => MayVanish
   (* files outside procfs: a "(deleted)" path normally does not exist, a target may be unlinked
-     (a /dev node unlinked during get_terminal_map's scan is not in the fault model: FDevE is strict) *)
+     (a /dev node: ENOENT only) *)
   | FExeDel | FCwdDel | FTargetDelE | FTargetE | FMapPathE | FGuessExe => MayVanish
+  | FDevE => MayEnoent        (* a pty node is removed when the (exiting) process closes its descriptors *)
   | _ => Strict
   end.
 (* kernel thread / zombie: in addition the exe and cwd links report ENOENT while the process is listed *)
